@@ -36,6 +36,8 @@ def corpus():
         p.Sum((p.Product((x, p.Power(y, 2))), p.Call(f, (p.Subscript(a, x),)), p.If(p.LogicalAnd((x, y)), 1, p.Quotient(1, x)))),
         p.Sum((fxn.UBase(x, "t"), fxn.LegacyPair(x, 2))),
     ]
+    # user node types with a field that __init__ does not take (set by __post_init__), alone and nested
+    ex += [fxn.UPostInit(x), fxn.UPostInit(p.Sum((x, y))), fxn.UPostInitDefault(x), fxn.UPostInitDefault(p.Product((x, 2))), p.Sum((fxn.UPostInit(y), fxn.UPostInitDefault(y), 1))]
     # the shipped legacy node types outside pymbolic.primitives
     from pymbolic.polynomial import Polynomial
     from pymbolic.rational import Rational
